@@ -223,9 +223,9 @@ def check_concrete_inputs(out, facts):
         ctx.env[d['params'][0]['v']] = ('input',)
         v, t = ev.ev(d['thir'], ctx)
         its = [e for e in events(t) if e[0] in INPUT_EVENTS]
-        okd = len(its) == 1 and its[0][0] == 'read' and '[0:u8]' in sym.vstr(its[0][1]).replace(' ', '') and any(e[0] == '?' for e in events(t))
-        rv = sym.vstr(v)
-        okd = okd and rv.startswith('Ok([0:u8][0')
+        okd = len(its) == 1 and its[0][0] == 'read' and sym.vstr(sym.deinit(its[0][1])) == 'index_mut([0:u8], RangeFull::RangeFull{})' and any(e[0] == '?' for e in events(t))
+        rv = sym.vstr(sym.deinit(strip(v)))
+        okd = okd and rv == 'Ok([0:u8][0:usize])'
         out.ob('R08.2', 'Input::read_byte default [%s]' % cfg, okd, 'default read_byte is not `read(&mut [0u8][..])?; Ok(buf[0])`: %s -> %s' % (sym.tstr(t), rv), d['loc'])
     else:
         out.fail('R08.2', 'Input::read_byte default [%s]' % cfg, 'trait default not found', '-')
